@@ -29,7 +29,16 @@ def options_from_eqdelimstring(opts):
     document = '\n'.join(
         f"{opt.split('=', 1)[0]}: {opt.split('=', 1)[1]}" for opt in opts
     )
-    return yaml.safe_load(document)
+    options = yaml.safe_load(document)
+    # YAML 1.1 resolves scientific notation as a float only if the mantissa
+    # contains a decimal point: "1.0e-6" is a float, but "1e-6" is a string
+    for key, value in options.items():
+        if isinstance(value, str):
+            try:
+                options[key] = float(value)
+            except ValueError:
+                pass
+    return options
 
 
 class EqDelimStringParamType(click.ParamType):
